@@ -282,5 +282,14 @@ def run(ctx):
         det = 'hasher fed by the TypeId argument only: %s; finish() of that hasher after feeding: %s; digest written into the name argument: %s; all 64 bits (no narrowing cast / arithmetic): %s' % (fed_by_tid, same_hasher, written, whole)
     ctx.ob('HASHFN', 'hash_type_id', ok, short_loc(hb[0].span) if hb else None, det)
 
+    # ---- "building its schema succeeds": derived schemas share unnamed nodes (the same Vec<T> / HashMap<_, T> type used
+    # twice is one node), so the freeze-time traversals must treat a node reached twice as a DAG, not as a cycle: the
+    # in-progress guards of the canonical form and of the JSON renderer bracket exactly the node's own children (shared
+    # with C08 / C09 / C19)
+    from . import c19
+    scope19 = [b for b in ctx.f.body_list if c19.in_scope(b)]
+    c19.canon_guard_semantics(ctx, scope19)
+    c19.json_recursion(ctx)
+
     # ---- macro side, on the corpus
     c20gen.run(ctx)
